@@ -89,13 +89,12 @@ impl Network {
 
         let public_key = wallet.public_key;
 
-        if transaction
-            .from
-            .first()
-            .expect("from slip should exist")
-            .public_key
-            == public_key
-        {
+        // a transaction without inputs is never valid: there is nothing to relay (a peer can
+        // send one; it is staged like any other until the next block production attempt)
+        let Some(first_input) = transaction.from.first() else {
+            return;
+        };
+        if first_input.public_key == public_key {
             if let TransactionType::GoldenTicket = transaction.transaction_type {
             } else {
                 wallet.add_to_pending(transaction.clone());
